@@ -1,11 +1,21 @@
 #!/bin/bash
 # usage: check.sh <property-id> <quick|thorough>
 # Decides one property by static analysis of /repo's current working tree (see DESIGN.md).
+#  quick    : load + SSA + call graph + the property's rules on /repo
+#  thorough : quick, plus the sensitivity self-test: every one-edit variant of the catalogue
+#             checker/variants/<id>.json (incl. the confirmed seeded changes) is applied to a scratch
+#             copy, compiled and analysed; results are recorded in the evidence file.
 cd "$(dirname "$0")"
 export GOFLAGS=-mod=mod GOPROXY=off GOSUMDB=off GOTOOLCHAIN=local
 unset GOWORK
 PROP=$1; TIER=${2:-${VERIF_TIER:-quick}}
-if [ ! -x bin/upfcheck ] || [ -n "$(find checker -newer bin/upfcheck -name '*.go' -print -quit 2>/dev/null)" ]; then
+mkdir -p bin evidence
+if [ ! -x bin/upfcheck ] || [ -n "$(find checker -newer bin/upfcheck \( -name '*.go' -o -name '*.json' \) -print -quit 2>/dev/null)" ]; then
   (cd checker && go build -o ../bin/upfcheck ./cmd/upfcheck) || { echo "VIOLATION property=$PROP replay=/verif/evidence/$PROP.build-failed"; exit 1; }
 fi
-exec bin/upfcheck -prop "$PROP" -tier "$TIER" -repo "${UPF_REPO:-/repo}" -verif /verif
+bin/upfcheck -prop "$PROP" -tier "$TIER" -repo "${UPF_REPO:-/repo}" -verif /verif
+rc=$?
+if [ "$TIER" = "thorough" ]; then
+  python3 tools/variants.py "$PROP" --jobs 6 --merge "evidence/$PROP.json" | grep -v '^selftest ok'
+fi
+exit $rc
